@@ -84,6 +84,8 @@ def run(repo, rep, tier):
     from .c04 import explicit_namespace_wins
     explicit_namespace_wins(repo, rep, 'C15.R7')
     pull_switch_rule(repo, rep)
+    from .c14 import timeout_zero_is_never
+    timeout_zero_is_never(repo, rep, 'C15.R10')
     from .c13 import adapter_keys_agree
     adapter_keys_agree(repo, rep, 'C15.R9', lambda op: op.startswith(('Open', 'Pull', 'Close')) or op in ('EnumerateInstances', 'EnumerateInstanceNames', 'Associators', 'AssociatorNames', 'References', 'ReferenceNames', 'ExecQuery'), 60)
     conn = repo.cls(OPS, 'WBEMConnection')
